@@ -376,6 +376,26 @@ pub fn run(cx: &mut Ctx) {
         }
         return;
     }
+    // bundled (slim) zones join the cross-flavour trace: in-memory fattening acts on them
+    if let Some(out) = cx.out.clone() {
+        if let Ok(mut f) = std::fs::OpenOptions::new().append(true).open(format!("{}.c18", out)) {
+            for (i, name) in zones::bundled_names().iter().enumerate() {
+                if !cx.mine(i as u64) {
+                    continue;
+                }
+                let Some((n, bytes)) = jiff_tzdb::get(name) else { continue };
+                let Ok(model) = tzref::parse_tzif(bytes) else { continue };
+                let Ok(a) = TimeZone::tzif(n, bytes) else { continue };
+                let id = format!("bundled:{}", n);
+                let model = Zone::Tzif(model);
+                let p = probes_for(&model, hash64(id.as_bytes()) ^ cx.seed, cx.thorough);
+                if let Ok(h) = guard(|| trace_hashes(&a, &p)) {
+                    let _ = writeln!(f, "{}\t{:016x}\t{:016x}\t{:016x}\t{:016x}\t{:016x}\t{}", id, h[0], h[1], h[2], h[3], h[4], if model.d10_zone() { "d10" } else { "-" });
+                    cx.eval(1);
+                }
+            }
+        }
+    }
     if trace_only {
         for z in &zs {
             cx.nontrivial(hash64(z.id.as_bytes()));
@@ -437,18 +457,56 @@ pub fn run(cx: &mut Ctx) {
         let _ = std::fs::remove_dir_all(&dir);
     }
 
-    // ---- the system database handle (jiff::tz::db) against the bytes of the system file
-    for z in zs.iter().filter(|z| z.id.starts_with("sys:")) {
-        cx.eval(1);
-        match guard(|| jiff::tz::db().get(&z.name)) {
-            Ok(Ok(b)) => {
-                if z.name != "UTC" {
-                    cmp_handles(cx, "tz::db()", &z.id, &z.a, &b, &z.p, false, b.iana_name() == Some(z.name.as_str()) && z.name != "UTC");
-                }
-            }
-            Ok(Err(_)) => cx.count("system_db_misses", 1),
-            Err(pn) => cx.violation(&format!("tz::db()/panic@{}", pn.loc()), || format!("cmp|tz::db()|{}", z.id), || "Ok".into(), || pn.what.clone()),
+    // ---- databases holding *all* system zones at once (the name index sees every neighbour): the global handle,
+    // a fresh from_dir handle on the system directory, and one container with every system zone
+    let sys_all = zones::system();
+    let all_files: Vec<(String, Vec<u8>)> = sys_all.iter().filter(|(n, _)| n.len() <= 40).filter_map(|(n, p)| std::fs::read(p).ok().map(|b| (n.clone(), b))).collect();
+    let full_dir = format!("{}/c18-full-{}", cx.work, cx.shard);
+    let _ = std::fs::create_dir_all(&full_dir);
+    let full_container = format!("{}/tzdata", full_dir);
+    let mut full_dbs: Vec<(&str, TimeZoneDatabase)> = vec![("tz::db()", jiff::tz::db().clone())];
+    match guard(|| TimeZoneDatabase::from_dir("/usr/share/zoneinfo")) {
+        Ok(Ok(db)) => full_dbs.push(("from_dir(system)", db)),
+        Ok(Err(e)) => cx.violation("from_dir(system)/cannot-open", || "cmp|from_dir(system)|all".into(), || "Ok".into(), || e.to_string()),
+        Err(pn) => cx.violation(&format!("from_dir(system)/panic@{}", pn.loc()), || "cmp|from_dir(system)|all".into(), || "Ok".into(), || pn.what.clone()),
+    }
+    if std::fs::write(&full_container, crate::concat::pack("2025b", &all_files)).is_ok() {
+        match guard(|| TimeZoneDatabase::from_concatenated_path(&full_container)) {
+            Ok(Ok(db)) => full_dbs.push(("from_concatenated_path(all)", db)),
+            Ok(Err(e)) => cx.violation("from_concatenated_path(all)/cannot-open", || "cmp|from_concatenated_path(all)|all".into(), || "Ok".into(), || e.to_string()),
+            Err(pn) => cx.violation(&format!("from_concatenated_path(all)/panic@{}", pn.loc()), || "cmp|from_concatenated_path(all)|all".into(), || "Ok".into(), || pn.what.clone()),
         }
+    }
+    for (label, db) in &full_dbs {
+        let avail: std::collections::BTreeSet<String> = match guard(|| db.available().map(|n| n.as_str().to_string()).collect()) {
+            Ok(a) => a,
+            Err(pn) => {
+                cx.violation(&format!("{}/available-panic@{}", label, pn.loc()), || format!("cmp|{}|all", label), || "Ok".into(), || pn.what.clone());
+                continue;
+            }
+        };
+        for z in zs.iter().filter(|z| z.id.starts_with("sys:")) {
+            if label.starts_with("from_concatenated") && z.name.len() > 40 {
+                continue;
+            }
+            cx.eval(1);
+            if !avail.contains(&z.name) {
+                cx.violation(&format!("{}/available-misses-zone", label), || format!("cmp|{}|{}", label, z.id), || z.name.clone(), || format!("{} names", avail.len()));
+            }
+            match guard(|| db.get(&z.name)) {
+                Ok(Ok(b)) => {
+                    if z.name != "UTC" {
+                        cmp_handles(cx, label, &z.id, &z.a, &b, &z.p, false, true);
+                    }
+                    check_names(cx, label, db, &z.name, &b, &z.p, &mut r);
+                }
+                Ok(Err(e)) => cx.violation(&format!("{}/zone-not-found", label), || format!("cmp|{}|{}", label, z.id), || format!("the zone {} (its file is accepted by TimeZone::tzif)", z.name), || e.to_string()),
+                Err(pn) => cx.violation(&format!("{}/panic@{}", label, pn.loc()), || format!("cmp|{}|{}", label, z.id), || "Ok".into(), || pn.what.clone()),
+            }
+        }
+    }
+    let _ = std::fs::remove_dir_all(&full_dir);
+    for z in zs.iter().filter(|z| z.id.starts_with("sys:")) {
         cx.nontrivial(hash64(z.id.as_bytes()));
     }
 
